@@ -34,7 +34,7 @@ pub fn def() -> PropDef {
 
 fn params(t: Tier) -> (usize, usize, usize) {
     // (names used, record-menu level, max records)
-    t.pick((4, 1, 2), (6, 1, 3))
+    t.pick((4, 1, 2), (5, 1, 3))
 }
 
 fn bounds(t: Tier) -> Value {
@@ -201,7 +201,7 @@ fn run(ctx: &mut Ctx, rep: &mut Report) {
     let names: Vec<Name> = std_names()[..nn].to_vec();
     let menu = rec_menu(&names, level);
     let opts = opt_variants();
-    let qnames = vec![names[2].clone(), names[0].clone()];
+    let qnames = if k >= 3 { vec![names[2].clone()] } else { vec![names[2].clone(), names[0].clone()] };
     let shard = ctx.shard as u64;
     let nsh = ctx.nshards as u64;
     let ctxp: *mut Ctx = ctx;
